@@ -282,7 +282,11 @@ Section Hits.
     Variable rec : qctx -> job -> res value.      (* the fault-free interpreter with one unit less fuel *)
     Variable rec_hits : qctx -> job -> Prop.      (* "that run invokes the trigger" *)
     Variable call : call_fn.                      (* the fault-free hook *)
-    Variable join : join_fn.                      (* a join that does not use the hook *)
+    Variable join : join_fn.                      (* the fault-free ExecJoin *)
+    (* "the fault-free evaluation of this join invokes the trigger" (False for a join that never
+       calls the hook) *)
+    Variable join_hits : jointype -> jstrategy -> list value -> list value -> string -> string ->
+                         expr stmt -> row -> Prop.
 
     Fixpoint build_hits (ctx : qctx) (f : from_clause stmt) : Prop :=
       match f with
@@ -300,7 +304,12 @@ Section Hits.
               end
           end
       | FDerived q _ => rec_hits ctx (JStmt q)
-      | FJoin jt st l r on => build_hits ctx l \/ (ok (build_from rec join ctx l) /\ build_hits ctx r)
+      | FJoin jt st l r on =>
+          build_hits ctx l \/
+          (ok (build_from rec join ctx l) /\ build_hits ctx r) \/
+          (exists lrows rrows,
+             build_from rec join ctx l = Ok (Some lrows) /\ build_from rec join ctx r = Ok (Some rrows) /\
+             join_hits jt st lrows rrows (from_ident l) (from_ident r) on (c_data ctx))
       end.
 
     Definition sub_hits (q : stmt) (cur : row) : Prop := rec_hits (sub_ctx cur) (JStmt q).
@@ -389,14 +398,17 @@ Section Hits.
       Variable ap : bool.
       Variable rec' : qctx -> job -> res value.
       Variable call' : call_fn.
+      Variable join' : join_fn.
       Hypothesis Hrec : forall ctx j, R ap (rec ctx j) (rec' ctx j).
       Hypothesis Hrech : forall ctx j, rec_hits ctx j -> fails ap (rec' ctx j).
       Hypothesis Hcall : call_rel ap call call'.
       Hypothesis HT : forall q n vs c, T q n vs c = true -> fails ap (call' q n vs c).
 
-      Let Hjoin : join_rel ap join join := fun jt st l r li ri on d => R_refl ap _ _.
+      Hypothesis Hjoin : join_rel ap join join'.
+      Hypothesis Hjh : forall jt st l r li ri on d,
+        join_hits jt st l r li ri on d -> fails ap (join' jt st l r li ri on d).
 
-      Lemma build_surfaces : forall f ctx, build_hits ctx f -> fails ap (build_from rec' join ctx f).
+      Lemma build_surfaces : forall f ctx, build_hits ctx f -> fails ap (build_from rec' join' ctx f).
       Proof.
         induction f as [|path alias|fn path alias|q alias|jt st l IHl r IHr on]; intros ctx H;
           cbn [build_hits] in H; try contradiction; cbn [build_from].
@@ -405,24 +417,29 @@ Section Hits.
           destruct (existsb (String.eqb k) (c_busy ctx)); [contradiction|].
           apply fails_bind, Hrech, H.
         - apply fails_bind, Hrech, H.
-        - destruct H as [H|[Hok H]]; [apply fails_bind, IHl, H|].
-          eapply step_bind; [apply (build_from_R ap rec rec' join join Hrec Hjoin)|exact Hok|].
-          intros lf _. apply fails_bind, IHr, H.
+        - destruct H as [H|[[Hok H]|[lrows [rrows [Hl [Hr H]]]]]]; [apply fails_bind, IHl, H| |].
+          + eapply step_bind; [apply (build_from_R ap rec rec' join join' Hrec Hjoin)|exact Hok|].
+            intros lf _. apply fails_bind, IHr, H.
+          + eapply step_bind; [apply (build_from_R ap rec rec' join join' Hrec Hjoin)|eexists; exact Hl|].
+            intros lf Hlf. rewrite Hl in Hlf. injection Hlf as <-.
+            eapply step_bind; [apply (build_from_R ap rec rec' join join' Hrec Hjoin)|eexists; exact Hr|].
+            intros rf Hrf. rewrite Hr in Hrf. injection Hrf as <-.
+            apply fails_bind, Hjh, H.
       Qed.
 
-      Let envR ctx s filtered := mk_env_R ap rec rec' call call' join join Hrec Hcall Hjoin ctx s filtered.
+      Let envR ctx s filtered := mk_env_R ap rec rec' call call' join join' Hrec Hcall Hjoin ctx s filtered.
 
       Lemma env_HS : forall ctx s filtered q c,
-        sub_hits q c -> fails ap (e_sub (mk_env rec' call' join ctx s filtered) q c).
+        sub_hits q c -> fails ap (e_sub (mk_env rec' call' join' ctx s filtered) q c).
       Proof. intros. cbn [mk_env e_sub]. apply Hrech. assumption. Qed.
 
       Lemma env_HX : forall ctx s filtered q c,
-        exists_hits q c -> fails ap (e_exists (mk_env rec' call' join ctx s filtered) q c).
+        exists_hits q c -> fails ap (e_exists (mk_env rec' call' join' ctx s filtered) q c).
       Proof.
         intros ctx s filtered q c H. cbn [mk_env e_exists]. destruct q as [s'|]; [|contradiction].
         cbn [exists_hits] in H. destruct H as [H|[rows [merged [Hb [Hm H]]]]].
         - apply fails_bind, build_surfaces, H.
-        - eapply step_bind; [apply (build_from_R ap rec rec' join join Hrec Hjoin)|eexists; exact Hb|].
+        - eapply step_bind; [apply (build_from_R ap rec rec' join join' Hrec Hjoin)|eexists; exact Hb|].
           intros src Hsrc. rewrite Hb in Hsrc. injection Hsrc as <-.
           change (fails ap (let! merged0 := mapM (merge_item c) rows in
                             let! out := rec' (sub_ctx c) (JRows s' merged0) in
@@ -431,26 +448,26 @@ Section Hits.
       Qed.
 
       Lemma env_HT : forall ctx s filtered q n vs c,
-        T q n vs c = true -> fails ap (e_call (mk_env rec' call' join ctx s filtered) q n vs c).
+        T q n vs c = true -> fails ap (e_call (mk_env rec' call' join' ctx s filtered) q n vs c).
       Proof. intros. cbn [mk_env e_call]. apply HT. assumption. Qed.
 
       Lemma cond_surfaces : forall ctx s filtered cur c,
         cond_hits (mk_env rec call join ctx s filtered) cur c ->
-        fails ap (eval_cond (mk_env rec' call' join ctx s filtered) cur c).
+        fails ap (eval_cond (mk_env rec' call' join' ctx s filtered) cur c).
       Proof.
         intros. eapply eval_cond_surfaces; eauto using envR, env_HT, env_HS, env_HX.
       Qed.
 
       Lemma items_surfaces : forall ctx s filtered cur items acc,
         items_hit (mk_env rec call join ctx s filtered) cur items ->
-        fails ap (select_expr (mk_env rec' call' join ctx s filtered) cur items acc).
+        fails ap (select_expr (mk_env rec' call' join' ctx s filtered) cur items acc).
       Proof.
         intros. eapply select_expr_surfaces; eauto using envR, env_HT, env_HS, env_HX.
       Qed.
 
       Lemma select_surfaces : forall ctx s filtered rows,
         select_hits (mk_env rec call join ctx s filtered) s rows ->
-        fails ap (exec_select (mk_env rec' call' join ctx s filtered) s rows).
+        fails ap (exec_select (mk_env rec' call' join' ctx s filtered) s rows).
       Proof.
         intros ctx s filtered rows H. unfold select_hits in H. unfold exec_select.
         destruct ((match s_group s with [] => true | _ => false end) && all_aggregate (s_items s)).
@@ -467,7 +484,7 @@ Section Hits.
 
       Lemma filter_surfaces : forall ctx s from,
         filter_hits ctx s (mk_env rec call join ctx s []) from ->
-        fails ap (filter_rows rec' ctx s (mk_env rec' call' join ctx s []) from).
+        fails ap (filter_rows rec' ctx s (mk_env rec' call' join' ctx s []) from).
       Proof.
         intros ctx s from H. unfold filter_hits in H. unfold filter_rows.
         induction from as [|cur r IH]; [contradiction|].
@@ -480,7 +497,7 @@ Section Hits.
 
       Lemma group_surfaces : forall ctx s filtered rows,
         group_hits (mk_env rec call join ctx s filtered) s rows ->
-        fails ap (exec_group_by (mk_env rec' call' join ctx s filtered) s rows).
+        fails ap (exec_group_by (mk_env rec' call' join' ctx s filtered) s rows).
       Proof.
         intros ctx s filtered rows H. unfold group_hits in H. unfold exec_group_by.
         destruct (s_group s) as [|c0 cols]; [contradiction|].
@@ -492,7 +509,7 @@ Section Hits.
 
       (* exec(): whatever stage the fault is reached in, the query returns an error *)
       Lemma run_surfaces : forall ctx s src,
-        run_hits ctx s src -> run_select rec' call' join ctx s src = Err.
+        run_hits ctx s src -> run_select rec' call' join' ctx s src = Err.
       Proof.
         intros ctx s src H. unfold run_select.
         assert (Hc : forall A (y : res A), fails ap y -> catch_panic y = Err).
@@ -509,11 +526,11 @@ Section Hits.
       Qed.
 
       Lemma step_surfaces : forall ctx j,
-        step_hits ctx j -> fails ap (exec_step rec' call' join ctx j).
+        step_hits ctx j -> fails ap (exec_step rec' call' join' ctx j).
       Proof.
         intros ctx j H. destruct j as [[s|all l r limit offset]|s rows]; cbn [step_hits] in H; cbn [exec_step].
         - destruct H as [H|[src [Hb H]]]; [apply fails_bind, build_surfaces, H|].
-          eapply step_bind; [apply (build_from_R ap rec rec' join join Hrec Hjoin)|eexists; exact Hb|].
+          eapply step_bind; [apply (build_from_R ap rec rec' join join' Hrec Hjoin)|eexists; exact Hb|].
           intros src' Hs'. rewrite Hb in Hs'. injection Hs' as <-.
           left. apply run_surfaces, H.
         - destruct H as [H|[Hok H]]; [apply fails_bind, Hrech, H|].
@@ -524,21 +541,57 @@ Section Hits.
   End Step.
 
   (* tying the knot with the same fuel as the interpreter *)
-  Fixpoint hits (call : call_fn) (join : join_fn) (fuel : nat) (ctx : qctx) (j : job) : Prop :=
-    match fuel with
-    | O => False
-    | S n => step_hits (exec call join n) (hits call join n) call join ctx j
-    end.
+  Section Knot.
+    Variable join_hits : jointype -> jstrategy -> list value -> list value -> string -> string ->
+                         expr stmt -> row -> Prop.
+
+    Fixpoint hits_gen (call : call_fn) (join : join_fn) (fuel : nat) (ctx : qctx) (j : job) : Prop :=
+      match fuel with
+      | O => False
+      | S n => step_hits (exec call join n) (hits_gen call join n) call join join_hits ctx j
+      end.
+
+    Theorem exec_surfaces_gen : forall ap (call call' : call_fn) (join join' : join_fn),
+      call_rel ap call call' -> join_rel ap join join' ->
+      (forall q n vs c, T q n vs c = true -> fails ap (call' q n vs c)) ->
+      (forall jt st l r li ri on d, join_hits jt st l r li ri on d -> fails ap (join' jt st l r li ri on d)) ->
+      forall fuel ctx j, hits_gen call join fuel ctx j -> fails ap (exec call' join' fuel ctx j).
+    Proof.
+      intros ap call call' join join' Hc Hj HT Hjh. induction fuel as [|n IH]; intros ctx j H; [contradiction|].
+      cbn [hits_gen] in H. cbn [exec].
+      apply (step_surfaces (exec call join n) (hits_gen call join n) call join join_hits ap
+                           (exec call' join' n) call' join'); auto.
+      intros ctx0 j0. apply exec_R; assumption.
+    Qed.
+
+    Theorem api_surfaces_gen : forall ap (call call' : call_fn) (join join' : join_fn),
+      call_rel ap call call' -> join_rel ap join join' ->
+      (forall q n vs c, T q n vs c = true -> fails ap (call' q n vs c)) ->
+      (forall jt st l r li ri on d, join_hits jt st l r li ri on d -> fails ap (join' jt st l r li ri on d)) ->
+      forall fuel wrapped doc q,
+        hits_gen call join fuel (api_ctx wrapped doc) (JStmt q) ->
+        api_run call' join' fuel wrapped doc q = Err.
+    Proof.
+      intros ap call call' join join' Hc Hj HT Hjh fuel wrapped doc q H. unfold api_run.
+      change (bind (catch_panic (exec call' join' fuel (api_ctx wrapped doc) (JStmt q)))
+                   (fun v => match v with VArr l => Ok l | _ => Ok [v] end) = Err).
+      destruct (exec_surfaces_gen ap call call' join join' Hc Hj HT Hjh fuel _ _ H) as [->|[_ ->]]; reflexivity.
+    Qed.
+  End Knot.
+
+  (* a join that never calls the hook (no_join, exec_join, a specification join) *)
+  Definition no_join_hits : jointype -> jstrategy -> list value -> list value -> string -> string ->
+                            expr stmt -> row -> Prop := fun _ _ _ _ _ _ _ _ => False.
+  Definition hits := hits_gen no_join_hits.
 
   Theorem exec_surfaces : forall ap (call call' : call_fn) (join : join_fn),
     call_rel ap call call' ->
     (forall q n vs c, T q n vs c = true -> fails ap (call' q n vs c)) ->
     forall fuel ctx j, hits call join fuel ctx j -> fails ap (exec call' join fuel ctx j).
   Proof.
-    intros ap call call' join Hc HT. induction fuel as [|n IH]; intros ctx j H; [contradiction|].
-    cbn [hits] in H. cbn [exec].
-    apply (step_surfaces (exec call join n) (hits call join n) call join ap (exec call' join n) call'); auto.
-    intros ctx0 j0. apply exec_R; [exact Hc|]. intros ? ? ? ? ? ? ? ?; apply R_refl.
+    intros ap call call' join Hc HT. apply (exec_surfaces_gen no_join_hits ap call call' join join); auto.
+    - intros ? ? ? ? ? ? ? ?; apply R_refl.
+    - intros ? ? ? ? ? ? ? ? [].
   Qed.
 
   Theorem api_surfaces : forall ap (call call' : call_fn) (join : join_fn),
@@ -548,9 +601,142 @@ Section Hits.
       hits call join fuel (api_ctx wrapped doc) (JStmt q) ->
       api_run call' join fuel wrapped doc q = Err.
   Proof.
-    intros ap call call' join Hc HT fuel wrapped doc q H. unfold api_run.
-    change (bind (catch_panic (exec call' join fuel (api_ctx wrapped doc) (JStmt q)))
-                 (fun v => match v with VArr l => Ok l | _ => Ok [v] end) = Err).
-    destruct (exec_surfaces ap call call' join Hc HT fuel _ _ H) as [->|[_ ->]]; reflexivity.
+    intros ap call call' join Hc HT. apply (api_surfaces_gen no_join_hits ap call call' join join); auto.
+    - intros ? ? ? ? ? ? ? ?; apply R_refl.
+    - intros ? ? ? ? ? ? ? ? [].
   Qed.
 End Hits.
+
+(* ------------------------------------------------------------------ *)
+(* calls inside a join's ON clause (Model/Faults.v fault_join)          *)
+(* ------------------------------------------------------------------ *)
+
+Section MapMHits.
+  Context {A B : Type}.
+
+  (* the fault-free mapM reaches an element on which P holds *)
+  Fixpoint mapM_hits (f : A -> res B) (P : A -> Prop) (l : list A) : Prop :=
+    match l with
+    | [] => False
+    | a :: r => P a \/ (ok (f a) /\ mapM_hits f P r)
+    end.
+
+  Lemma mapM_surfaces : forall ap (f g : A -> res B) (P : A -> Prop) l,
+    (forall a, R ap (f a) (g a)) -> (forall a, P a -> fails ap (g a)) ->
+    mapM_hits f P l -> fails ap (mapM g l).
+  Proof.
+    intros ap f g P l HR HP. induction l as [|a r IH]; intro H; [contradiction|]. cbn [mapM].
+    destruct H as [H|[Hok H]]; [apply fails_bind, HP, H|].
+    eapply step_bind; [apply HR|exact Hok|]. intros b _. apply fails_bind, IH, H.
+  Qed.
+End MapMHits.
+
+Section JoinHits.
+  Variable T : string -> string -> list value -> row -> bool.
+  Variable call : call_fn.                       (* the fault-free hook *)
+
+  Definition no_sub : stmt -> row -> Prop := fun _ _ => False.
+
+  (* JoinMatchFunc: the ON clause on one (left key, right key) pair *)
+  Definition right_step (c : call_fn) (data lkeys : row) (lrows : list value) (on : expr stmt)
+             (re : centry) : res (list value) :=
+    let '(_, (rkeys, rrows)) := re in
+    let! r := eval (on_env_call c data) (obj_merge (obj_merge [] lkeys) rkeys) on in
+    match r with
+    | RVal (VBool true) => pairs lrows rrows
+    | RVal (VBool false) => Ok []
+    | _ => Err
+    end.
+
+  Definition right_hits (data lkeys : row) (on : expr stmt) (re : centry) : Prop :=
+    let '(_, (rkeys, _)) := re in
+    invokes stmt (on_env_call call data) T no_sub no_sub (obj_merge (obj_merge [] lkeys) rkeys) on.
+
+  Definition loop_hits (data : row) (on : expr stmt) (rcat : list centry) (le : centry) : Prop :=
+    let '(_, (lkeys, lrows)) := le in
+    mapM_hits (right_step call data lkeys lrows on) (right_hits data lkeys on) rcat.
+
+  Definition fault_join_hits (jt : jointype) (st : jstrategy) (lrows rrows : list value)
+             (lid rid : string) (on : expr stmt) (data : row) : Prop :=
+    (is_straight st && negb (match jt with JInner => true | _ => false end)) = false /\
+    (negb (is_straight st) && hash_join_analyze on) = false /\
+    let '(L, Rr, li, ri) :=
+      if match jt with JRight => negb (is_straight st) | _ => false end
+      then (rrows, lrows, rid, lid) else (lrows, rrows, lid, rid) in
+    exists lcat rcat,
+      to_catalog L li ri on = Ok lcat /\ to_catalog Rr ri li on = Ok rcat /\
+      mapM_hits (fun le => loop_match_call call data (match jt with JInner => true | _ => false end) ri on le rcat)
+                (loop_hits data on rcat) lcat.
+
+  Section FaultyJoin.
+    Variable ap : bool.
+    Variable call' : call_fn.
+    Hypothesis Hcall : call_rel ap call call'.
+    Hypothesis HT : forall q n vs c, T q n vs c = true -> fails ap (call' q n vs c).
+
+    Lemma on_env_rel : forall data, env_rel ap stmt (on_env_call call data) (on_env_call call' data).
+    Proof. intro data. constructor; cbn; try reflexivity; intros; try apply R_refl. apply Hcall. Qed.
+
+    Lemma right_step_R : forall data lkeys lrows on re,
+      R ap (right_step call data lkeys lrows on re) (right_step call' data lkeys lrows on re).
+    Proof.
+      intros data lkeys lrows on [k [rkeys rrows]]. unfold right_step.
+      apply R_bind; [apply eval_R, on_env_rel|]. intro; apply R_refl.
+    Qed.
+
+    Lemma loop_match_call_R : forall data inner ri on le rcat,
+      R ap (loop_match_call call data inner ri on le rcat) (loop_match_call call' data inner ri on le rcat).
+    Proof.
+      intros data inner ri on [k [lkeys lrows]] rcat. unfold loop_match_call.
+      apply R_bind; [|intro; apply R_refl].
+      apply (R_mapM ap _ _ (right_step call data lkeys lrows on) (right_step call' data lkeys lrows on)).
+      apply right_step_R.
+    Qed.
+
+    Lemma loop_surfaces : forall data inner ri on rcat le,
+      loop_hits data on rcat le -> fails ap (loop_match_call call' data inner ri on le rcat).
+    Proof.
+      intros data inner ri on rcat [k [lkeys lrows]] H. unfold loop_hits in H. unfold loop_match_call.
+      apply fails_bind.
+      apply (mapM_surfaces ap (right_step call data lkeys lrows on) (right_step call' data lkeys lrows on)
+                           (right_hits data lkeys on)); [apply right_step_R| |exact H].
+      intros [k' [rkeys rrows]] Hr. unfold right_hits in Hr. unfold right_step. apply fails_bind.
+      apply (eval_surfaces stmt (on_env_call call data) T no_sub no_sub ap (on_env_call call' data)); auto.
+      - apply on_env_rel.
+      - intros q c [].
+      - intros q c [].
+    Qed.
+
+    (* a call in ON that is reached fault-free makes the faulty ExecJoin fail *)
+    Theorem fault_join_surfaces : forall jt st l r li ri on d,
+      fault_join_hits jt st l r li ri on d -> fails ap (fault_join call' jt st l r li ri on d).
+    Proof.
+      intros jt st l r li ri on d [Hs [Hh H]]. unfold fault_join. rewrite Hs.
+      destruct (if match jt with JRight => negb (is_straight st) | _ => false end
+                then (r, l, ri, li) else (l, r, li, ri)) as [[[L Rr] li'] ri'].
+      destruct H as [lcat [rcat [Hl [Hr H]]]]. rewrite Hl, Hr. cbn [bind]. rewrite Hh.
+      apply fails_bind.
+      apply (mapM_surfaces ap
+               (fun le => loop_match_call call d (match jt with JInner => true | _ => false end) ri' on le rcat)
+               (fun le => loop_match_call call' d (match jt with JInner => true | _ => false end) ri' on le rcat)
+               (loop_hits d on rcat)); [intro; apply loop_match_call_R| |exact H].
+      intros le Hle. apply loop_surfaces, Hle.
+    Qed.
+  End FaultyJoin.
+
+  (* every position, ON included *)
+  Definition hits_on := hits_gen T fault_join_hits.
+End JoinHits.
+
+Theorem api_surfaces_on : forall T ap (call call' : call_fn),
+  call_rel ap call call' ->
+  (forall q n vs c, T q n vs c = true -> fails ap (call' q n vs c)) ->
+  forall fuel wrapped doc q,
+    hits_on T call call (fault_join call) fuel (api_ctx wrapped doc) (JStmt q) ->
+    api_run call' (fault_join call') fuel wrapped doc q = Err.
+Proof.
+  intros T ap call call' Hc HT fuel wrapped doc q H.
+  apply (api_surfaces_gen T (fault_join_hits T call) ap call call' (fault_join call) (fault_join call')); auto.
+  - apply fault_join_R, Hc.
+  - intros. apply (fault_join_surfaces T call ap call'); auto.
+Qed.
